@@ -42,6 +42,7 @@ type BatchCfg struct {
 	HasPost bool   `json:"hasPost"`
 	Shape   string `json:"shape"` // results | anys | typed | single | nil
 	Build   string `json:"build,omitempty"` // option | builder | bare (run the *BatchNode inside the builder)
+	ExecVia string `json:"execVia,omitempty"` // "" (BatchNodeBuilder setters) | copt | cbuilder (exec installed on the CustomNode)
 }
 
 type Conn struct {
@@ -826,7 +827,7 @@ func (e *runtimeEnv) buildBatchWith(b *batchImpl) *flyt.BatchNodeBuilder {
 	} else {
 		bb = flyt.NewBatchNode()
 	}
-	native := cfg.Shape == "results" && cfg.Fb == "pass"
+	native := cfg.Shape == "results" && cfg.Fb == "pass" && cfg.ExecVia == ""
 	if !native {
 		// prep through CustomNode.Prep and/or a custom fallback: give the batch builder a CustomNode built
 		// with the corresponding options (its BaseNode then carries the configuration)
@@ -841,7 +842,27 @@ func (e *runtimeEnv) buildBatchWith(b *batchImpl) *flyt.BatchNodeBuilder {
 			opts = append(opts, flyt.WithMaxRetries(cfg.Budget), flyt.WithWait(wait),
 				flyt.WithBatchConcurrency(cfg.Conc), flyt.WithBatchErrorHandling(!cfg.Stop))
 		}
-		bb.BatchNode.CustomNode = flyt.NewNode(opts...).CustomNode
+		// ExecVia: the exec function is installed on the CustomNode itself — through NewNode's options ("copt") or
+		// through NodeBuilder methods ("cbuilder") — instead of through the BatchNodeBuilder's own setters; the
+		// batch node is then `&BatchNode{CustomNode: NewNode(...).CustomNode}` as far as exec / fallback go
+		if cfg.ExecVia == "copt" {
+			switch cfg.ExecS {
+			case "res":
+				opts = append(opts, flyt.WithExecFunc(execRes))
+			case "any":
+				opts = append(opts, flyt.WithExecFuncAny(execAny))
+			}
+		}
+		nb := flyt.NewNode(opts...)
+		if cfg.ExecVia == "cbuilder" {
+			switch cfg.ExecS {
+			case "res":
+				nb.WithExecFunc(execRes)
+			case "any":
+				nb.WithExecFuncAny(execAny)
+			}
+		}
+		bb.BatchNode.CustomNode = nb.CustomNode
 	}
 	if cfg.Build != "option" {
 		bb.WithMaxRetries(cfg.Budget).WithWait(wait).WithBatchConcurrency(cfg.Conc).WithBatchErrorHandling(!cfg.Stop)
@@ -849,11 +870,13 @@ func (e *runtimeEnv) buildBatchWith(b *batchImpl) *flyt.BatchNodeBuilder {
 	if cfg.Shape == "results" {
 		bb.WithPrepFunc(prepRes)
 	}
-	switch cfg.ExecS {
-	case "res":
-		bb.WithExecFunc(execRes)
-	case "any":
-		bb.WithExecFuncAny(execAny)
+	if cfg.ExecVia == "" {
+		switch cfg.ExecS {
+		case "res":
+			bb.WithExecFunc(execRes)
+		case "any":
+			bb.WithExecFuncAny(execAny)
+		}
 	}
 	if cfg.HasPost {
 		bb.WithPostFunc(post)
